@@ -34,7 +34,11 @@ def gen_cases(spec, ctx):
     r = ctx.rng
     t = spec["type"]
     for i in range(spec["pairs"]):
-        a, b = formats.gen_pair_for_type(r, t)
+        if t in ("json", "json5", "yaml", "pickle") and i % 3 == 2:
+            # type-specific features: null, empty containers, and (yaml, pickle) non-string mapping keys
+            a, b = formats.gen_rich_pair(r, t)
+        else:
+            a, b = formats.gen_pair_for_type(r, t)
         if a == b:
             b = formats.gen_pair_for_type(r, t)[1]
         for fmt, mode, look, cond, same in itertools.product(formats.TYPES, MODES, LOOKS, COND, [False, True]):
@@ -44,8 +48,11 @@ def gen_cases(spec, ctx):
 def check(case, ctx):
     diags = []
     t = case["type"]
-    pa = families.tmpfile(formats.write(t, case["a"]), "-a" + formats.EXT[t])
-    pb = families.tmpfile(formats.write(t, case["b"]), "-b" + formats.EXT[t])
+    da, db = case["a"], case["b"]
+    if t in formats.DATA_TYPES:
+        da, db = families.dec(da), families.dec(db)      # documents with non-string keys travel in tagged form
+    pa = families.tmpfile(formats.write(t, da), "-a" + formats.EXT[t])
+    pb = families.tmpfile(formats.write(t, db), "-b" + formats.EXT[t])
     argv = ["--no-status", "--format", case["fmt"]] + case["mode"] + case["look"] + case["cond"] + [pa, pb]
     res = monitors.run_main(argv)
     if ctx is not None:
